@@ -32,7 +32,9 @@ type Cmd struct {
 type Dialog struct {
 	Service string
 	UDP     bool // every Cmd is one datagram
-	Cmds    []Cmd
+	// SameSource: the datagrams belong together and come from one client address, in order
+	SameSource bool
+	Cmds       []Cmd
 	// PayloadByRead: the service fills its payload field from a single Read, so the field
 	// may be any prefix of the body depending on segmentation; it is excluded from the
 	// metamorphic comparison and checked as a prefix.
@@ -605,6 +607,34 @@ func SNMPGet(community string, pduTag byte, reqID int, oids [][]int) []byte {
 	}
 	pdu := tlv(pduTag, berInt(reqID), berInt(0), berInt(0), tlv(0x30, vbs))
 	return tlv(0x30, berInt(0), berStr(community), pdu)
+}
+
+// GenTFTPUpload: a write request followed by its DATA blocks (at most 4 datagrams: the
+// limiter's burst per source), ending with a short - possibly empty - block.
+func GenTFTPUpload(t *rapid.T) Dialog {
+	d := Dialog{Service: "tftp", UDP: true, SameSource: true}
+	fn := rapid.SampledFrom([]string{"up.bin", "x/y.cfg", "a"}).Draw(t, "file")
+	d.Cmds = append(d.Cmds, Cmd{Name: "wrq", Wire: append([]byte{0, 2}, []byte(fn+"\x00octet\x00")...), Exp: []Expect{{Match: map[string]string{"type": "tftp-write", "tftp.filename": fn, "tftp.mode": "octet"}, Trim0: []string{"tftp.filename", "tftp.mode"}}}})
+	full := rapid.IntRange(0, 2).Draw(t, "fullblocks")
+	last := rapid.SampledFrom([]int{0, 0, 1, 100, 511}).Draw(t, "lastlen")
+	var content []byte
+	for b := 1; b <= full+1; b++ {
+		n := 512
+		if b == full+1 {
+			n = last
+		}
+		blk := make([]byte, n)
+		for i := range blk {
+			blk[i] = byte(b*31 + i)
+		}
+		content = append(content, blk...)
+		c := Cmd{Name: fmt.Sprintf("data%d", n), Wire: append([]byte{0, 3, 0, byte(b)}, blk...)}
+		if b == full+1 {
+			c.Exp = []Expect{{Match: map[string]string{"type": "tftp-write-file", "tftp.filename": fn, "tftp.file-hex": fmt.Sprintf("%x", content)}, Trim0: []string{"tftp.filename"}}}
+		}
+		d.Cmds = append(d.Cmds, c)
+	}
+	return d
 }
 
 // GenUDP: one dialog = 1..4 independent datagrams for the service.
